@@ -155,7 +155,7 @@ def run_check(pc: PropCheck, tier: str, seed: int) -> int:
 
     # ---------------- A/B: tie by translation + proofs
     ok, log = common.coq_build(clean=(tier == "thorough" and os.environ.get("VERIF_CLEAN") == "1"),
-                               targets=[pc.props_file] + list(pc.extra_targets))
+                               targets=(None if common.ALT else [pc.props_file] + list(pc.extra_targets)))
     (workdir / "build.log").write_text(log)
     deps = deps_of(pc.props_file)
     for t in pc.extra_targets:
@@ -241,6 +241,18 @@ def run_check(pc: PropCheck, tier: str, seed: int) -> int:
         for case, run in zip(cases, runs):
             items.append(pc.coq_item(case, run))
         shards = [list(range(i, min(i + pc.shard, len(items)))) for i in range(0, len(items), pc.shard)]
+        # the development files the generated cases import must be built too
+        if shards and not common.ALT:
+            first = pc.cases_file([items[i] for i in shards[0][:1]])
+            need = set()
+            for m in re.finditer(r"From\s+PV\s+Require\s+(?:Import|Export)\s+((?:[A-Za-z_0-9]+(?:\.[A-Za-z_0-9]+)*\s*)+)\.(?:\s|$)", first):
+                for mod in m.group(1).split():
+                    need.add(mod.replace(".", "/") + ".v")
+            need = sorted(f for f in need if (COQ / f).exists() and not common.coq_file_ok(f))
+            if need:
+                ok2, log2 = common.coq_build(targets=need)
+                if not ok2:
+                    broken.append("coq: files imported by the cases do not build: " + ", ".join(need))
 
         def do_shard(si):
             idxs = shards[si]
